@@ -112,29 +112,32 @@ PROPS = {
         "level_note": "Only the framing half of C13 is claimed. Trusts iosim's channel model.",
     },
     "C15": {
-        "title": "TLS and WebSocket layers preserve the stream over any transport behaviour (TLS half here; WebSocket needs real descriptors, see Engine K)",
+        "title": "TLS and WebSocket layers preserve the stream over any transport behaviour",
         "engine": "S",
         "package": "check-s",
         "bin": "check-s",
-        "design_ref": "§3, §7 C15",
-        "technique": "deterministic simulation: real compio-tls client and server (rustls and native-tls, all four pairings) as two simulated tasks over compio-io's poll-style adapter over a fault-injecting duplex channel (fragmentation, Pending, back-pressure, hold-until-flush); payload equality, clean-close, deadlock and step-bound oracles; replay by choice sequence (fixed RSA test key so record sizes are constant)",
+        "share": 3,
+        "more_parts": [{"engine": "K", "package": "check-k", "bin": "check-k", "share": 1}],
+        "design_ref": "§3, §4, §7 C15",
+        "technique": "deterministic simulation, two engines. K (WebSocket): the real compio-ws (tungstenite through PollFd readiness) on both ends of a Unix socket pair with small buffers, on the simulated io_uring kernel or the polling driver, which decide when readiness is reported to which side; client and server send generated lists of text/binary messages (0 .. 70 KB, around the 7/16/64-bit length boundaries and the buffer size) while receiving the other's, then close; message-sequence, clean-close and stuck oracles. S (TLS): real compio-tls client and server (rustls and native-tls, all four pairings) as two simulated tasks over compio-io's poll-style adapter over a fault-injecting duplex channel (fragmentation, Pending, back-pressure, hold-until-flush); payload equality, clean-close, deadlock and step-bound oracles; replay by choice sequence (fixed RSA test key so record sizes are constant)",
         "tiers": {
             "quick": {"runs": 160_000, "time_limit_s": 60},
             "thorough": {"runs": 8_000_000, "time_limit_s": 1500},
         },
-        "rule": S_RULE,
-        "real": ["compio-tls (adapter, stream, maybe, compat/common, compat/native)", "compio-io compat::AsyncStream / SyncStream", "rustls + futures-rustls", "native-tls + OpenSSL (system library)", "ring"],
+        "rule": S_RULE + " Engine K runs (a quarter of the workers): " + K_RULE,
+        "real": ["compio-ws, tungstenite, async-tungstenite, compio-runtime PollFd (Engine K part)", "compio-tls (adapter, stream, maybe, compat/common, compat/native)", "compio-io compat::AsyncStream / SyncStream", "rustls + futures-rustls", "native-tls + OpenSSL (system library)", "ring"],
         "stub": S_STUB,
         "assumptions": [
             "the transport never reports Interrupted or hard errors to the TLS layer (compio streams do not), only fragmentation, Pending, back-pressure and hold-until-flush",
             "TLS randomness (nonces, key shares) is not seeded; decisions depend on byte counts only, which are constant for the fixed RSA key in /verif/data; a failure must reproduce on replay to be reported",
             "runs with a rustls endpoint keep that endpoint's outbound channel roomy and fault-free until its handshake finished in 7 of 8 runs, because of the listed known finding; the remaining runs exercise (and report) it",
-            "WebSocket (compio-ws) is bound to PollFd descriptors and is not exercised by this check",
+            "WebSocket (compio-ws) is bound to PollFd descriptors: its transport is a real Unix socket pair whose fragmentation comes from small socket buffers and large frames; what the simulator controls there is the timing and order of readiness notifications and the driver",
+            "WebSocket over TLS (compio-ws with compio-tls) is not exercised",
             "sampling, not enumeration",
         ],
         "level_text": ("Seeded exploration of transport schedules under real TLS endpoints of both back-ends and both roles: handshake completes, request/response bytes equal, both sides observe a clean close, "
                        "nothing deadlocks or spins."),
-        "level_note": "TLS half of C15 only. Trusts iosim's channel model (a lazy transport: progress only when polled, which is harsher than completion-based compio streams).",
+        "level_note": "TLS on Engine S trusts iosim's channel model (a lazy transport: progress only when polled, which is harsher than completion-based compio streams). WebSocket on Engine K: both peers are compio-ws.",
     },
     "C04": {
         "title": "Task and join-handle lifecycle",
